@@ -110,16 +110,40 @@ func init() {
 			}
 			out := in.elemCopy(el)
 			// drop the enveloped Signature child (direct child named Signature) if the scenario carries one
+			rm := in.etreeMethod(types.NewPointer(in.etreeType("Element")), "RemoveChildAt")
 			oe := in.viewElem(out)
+			removed := false
 			for i, c := range oe.Children {
 				if c.Kind != "elem" {
 					continue
 				}
 				ce := in.viewElem(c.Elem)
 				if ce.Tag.Const && ce.Tag.Str == "Signature" {
-					rm := in.etreeMethod(types.NewPointer(in.etreeType("Element")), "RemoveChildAt")
 					in.callFunction(rm, []Value{out, smt.BV(uint64(i), 64)}, nil)
+					removed = true
 					break
+				}
+			}
+			if !removed {
+				// the enveloped signature may sit deeper (e.g. inside samlp:Extensions): the transform removes it there
+				for _, c := range oe.Children {
+					if c.Kind != "elem" || removed {
+						continue
+					}
+					ce := in.viewElem(c.Elem)
+					if _, holder := ce.attr("vx-sigholder"); !holder {
+						continue
+					}
+					for j, cc := range ce.Children {
+						if cc.Kind == "elem" {
+							cce := in.viewElem(cc.Elem)
+							if cce.Tag.Const && cce.Tag.Str == "Signature" {
+								in.callFunction(rm, []Value{c.Elem, smt.BV(uint64(j), 64)}, nil)
+								removed = true
+								break
+							}
+						}
+					}
 				}
 			}
 			in.addAttr(out, "vx-verified", smt.StrLit("1"))
@@ -263,7 +287,7 @@ func init() {
 			in.bindDoc(infl, d)
 			in.Assume(smt.Not(InflateErr(raw)))
 			ir.Extra["inflated_len"] = BLen(infl)
-			in.Assume(smt.BVSle(smt.BV(1, 64), BLen(infl)))
+			in.Assume(smt.And(smt.BVSle(smt.BV(65536, 64), BLen(infl)), smt.BVSle(BLen(infl), smt.BV(1<<26, 64))))
 		}
 		in.Ghost["choice:"+name+".mode"] = mode
 		in.Ghost["wire:"+name] = raw
@@ -289,8 +313,22 @@ func init() {
 		data := B64D("std", s)
 		in.Assume(smt.BVSle(smt.BV(64, 64), BLen(data)))
 		pt := smt.NewVar(symName(name+".plaintext"), smt.KStr, 0)
+		compressed := false
+		if len(a) > 3 {
+			compressed = in.Branch(termArg(in, a[3]))
+		}
 		if inner != nil {
-			in.bindDoc(pt, &boundDoc{Name: name, Root: in.elemCopy(inner)})
+			d := &boundDoc{Name: name, Root: in.elemCopy(inner)}
+			if compressed {
+				infl := Inflate(pt)
+				in.bindDoc(infl, d)
+				in.Assume(smt.Not(InflateErr(pt)))
+				in.Assume(smt.And(smt.BVSle(smt.BV(65536, 64), BLen(infl)), smt.BVSle(BLen(infl), smt.BV(1<<26, 64))))
+				ir := in.inputIdx[name]
+				ir.Extra["inflated_len"] = BLen(infl)
+			} else {
+				in.bindDoc(pt, d)
+			}
 		}
 		plan := &cipherPlan{Name: name, Plain: smt.NewVar(symName(name+".plain"), smt.KArr, 0), GCMOK: smt.True, Key: key, PlainBlob: pt}
 		in.Ghost["cipher:"+data.S] = plan
